@@ -76,6 +76,8 @@ Proof.
     + destruct (HA _ Hd Ec) as [u Hu].
       assert (Nu : u <> t) by (intros ->; rewrite Heql in Hu; discriminate Hu).
       exists u. rewrite (upd_other _ _ _ _ Nu). apply addhd_chainhd, Hu.
+  - (* EEnvCancel makes the future cancelled, not finished *)
+    exfalso. match type of Hf with fst (f_cancel ?x) = _ => destruct x; simpl in *; discriminate end.
 Qed.
 
 (* a record that enters the queue with a delegate future: delegate.submit() just returned; if the future is
@@ -93,10 +95,11 @@ Proof.
   - split; [reflexivity|]. discriminate.
 Qed.
 
-(* the delegate future has just been cancelled: by RetryFuture.cancel(), which goes on to pop the record *)
+(* the delegate future has just been cancelled: by RetryFuture.cancel(), which goes on to pop the record, or by
+   somebody else (EEnvCancel) *)
 Lemma dcan_new s e s' d : PI s -> step0 s e = Some s' -> d < ndel s -> fcancelled (ds s' d) = true ->
   fcancelled (ds s d) = false ->
-  exists t r, jdel (recs s r) = Some d /\ r < nrec s /\ wpop r false (thr s' t) = true.
+  (exists t r, jdel (recs s r) = Some d /\ r < nrec s /\ wpop r false (thr s' t) = true) \/ envc s' d.
 Proof.
   intros HP H Hd. s0inv H; try congruence.
   all: try (match goal with inl : option outcome |- _ => destruct inl end).
@@ -106,16 +109,17 @@ Proof.
   all: intros Hf Hn.
   all: try (match type of Hf with fcancelled (upd _ ?d0 _ _) = _ =>
          destruct (Nat.eq_dec d d0) as [->|Nd]; [rewrite upd_same in Hf|rewrite (upd_other _ _ _ _ Nd) in Hf; congruence] end).
-  1-2: (destruct Hi as (A & B & _); exists t, r; split; [exact B|]; split; [exact A|];
+  1-2: (left; destruct Hi as (A & B & _); exists t, r; split; [exact B|]; split; [exact A|];
         rewrite upd_same; simpl; rewrite Nat.eqb_refl; reflexivity).
   1-2: lia.
   - exfalso. match type of Heqo with f_srnc ?x = _ => destruct x; simpl in Heqo; inversion Heqo; subst; discriminate end.
   - exfalso. apply f_set_fin in Heqo0. subst f. discriminate Hf.
+  - right. exists (clock s). left. reflexivity.
 Qed.
 
 Definition R3 (s : st) : Prop := forall r d, In r (jobs s) -> jdel (recs s r) = Some d -> ds s d = Finished -> handled s d r.
 Definition R4 (s : st) : Prop := forall r d, In r (jobs s) -> jdel (recs s r) = Some d -> fcancelled (ds s d) = true ->
-  exists c, wpop r false (thr s c) = true.
+  (exists c, wpop r false (thr s c) = true) \/ envc s d.
 
 Lemma R3_step0 s e s' : R3 s -> SI s -> MI s -> step0 s e = Some s' -> R3 s'.
 Proof.
@@ -145,10 +149,10 @@ Proof.
     destruct (Er r Hr) as (_ & Ed & _). rewrite Ed in Hjd.
     assert (Hd : d < ndel s) by (apply (pi_del s HP r d Hr Hjd)).
     destruct (fcancelled (ds s d)) eqn:Ec.
-    + destruct (HR r d Hin0 Hjd Ec) as [c W].
-      destruct (wpop_step s e s' r c HM H W) as [W'|N]; [exists c; exact W'|contradiction].
-    + destruct (dcan_new s e s' d HP H Hd Hc Ec) as (t & r1 & A & B & W).
-      assert (r1 = r) by (apply (si_inj s HS r1 r d); assumption). subst r1. exists t. exact W.
+    + destruct (HR r d Hin0 Hjd Ec) as [[c W]|E]; [|right; eapply envc_step0; eassumption].
+      destruct (wpop_step s e s' r c HM H W) as [W'|N]; [left; exists c; exact W'|contradiction].
+    + destruct (dcan_new s e s' d HP H Hd Hc Ec) as [(t & r1 & A & B & W)|E]; [|right; exact E].
+      assert (r1 = r) by (apply (si_inj s HS r1 r d); assumption). subst r1. left. exists t. exact W.
   - destruct (new_inflight s e s' d H Hin En Hjd) as [F _]. congruence.
 Qed.
 
